@@ -61,6 +61,8 @@ pub enum Op {
     AssocUnsetElem { name: String, key: String },
     FnDef { name: String, body: String },
     FnUnset { name: String },
+    /// `NAME() { builtin NAME "$@" && echo "shadow-NAME"; }` for a command name
+    Shadow { name: String },
     AliasDef { name: String, val: String },
     Unalias { name: String },
     SetO { opt: String, on: bool },
@@ -108,6 +110,9 @@ const READONLYS: &[&str] = &["R0", "R1"];
 const ARRAYS: &[&str] = &["A0", "A1"];
 const ASSOCS: &[&str] = &["M0", "M1"];
 const FUNCS: &[&str] = &["f0", "f1", "f2", "my-func", "g.h"];
+/// user functions that shadow the commands the carrier's own restore lines use
+const SHADOW_DIR: &[&str] = &["cd", "pushd", "popd"];
+const SHADOW_BUILTIN: &[&str] = &["declare", "alias", "shopt", "set", "export", "unset", "source"];
 const ALIASES: &[&str] = &["a0", "a1", "ll"];
 const SET_OPTS: &[&str] = &["allexport", "errexit", "nounset", "noclobber", "noglob", "pipefail", "posix"];
 const SHOPT_OPTS: &[&str] = &[
@@ -318,6 +323,7 @@ impl Op {
                 t
             }
             Op::FnUnset { name } => decorate("fn.unset", name, None),
+            Op::Shadow { name } => format!("fn.shadow.{name}"),
             Op::AliasDef { val, .. } => decorate("alias.def", "", Some(val)),
             Op::Unalias { .. } => "alias.unset".into(),
             Op::SetO { opt, on } => format!("opt.set.{opt}.{}", if *on { "on" } else { "off" }),
@@ -345,6 +351,8 @@ impl Op {
             Op::AssocSet { .. } | Op::AssocElem { .. } | Op::AssocUnsetElem { .. } => "var.assoc",
             Op::FnDef { name, .. } if name_class(name) == "dashed" => "fn.dashed",
             Op::FnDef { .. } | Op::FnUnset { .. } => "fn",
+            Op::Shadow { name } if SHADOW_DIR.contains(&name.as_str()) => "fn.shadow-dir",
+            Op::Shadow { .. } => "fn.shadow-builtin",
             Op::AliasDef { .. } | Op::Unalias { .. } => "alias",
             Op::SetO { .. } => "opt",
             Op::Shopt { .. } => "shopt",
@@ -384,6 +392,7 @@ impl Op {
             Op::AssocUnsetElem { name, key } => format!("declare -A {name}; unset -v {}", sq_quote(&format!("{name}[{key}]"))),
             Op::FnDef { name, body } => body.replace("NAME", name),
             Op::FnUnset { name } => format!("unset -f {name}"),
+            Op::Shadow { name } => format!("{name}() {{ builtin {name} \"$@\" && echo \"shadow-{name}\"; }}"),
             Op::AliasDef { name, val } => format!("alias {name}={}", sq_quote(val)),
             Op::Unalias { name } => format!("unalias {name} 2>/dev/null || true"),
             Op::SetO { opt, on } => format!("set {}o {opt}", if *on { "-" } else { "+" }),
@@ -508,26 +517,26 @@ impl History {
 /// `set +o` / `shopt -p` are printed before the sub-shell relaxes its own options.
 fn probe_text() -> String {
     let vars = var_names().join(" ");
-    let funcs = FUNCS.join(" ");
+    let funcs = FUNCS.iter().chain(SHADOW_DIR).chain(SHADOW_BUILTIN).copied().collect::<Vec<_>>().join(" ");
     let aliases = ALIASES.join(" ");
     format!(
         r#"(
-echo "@@opts"; set +o
-echo "@@shopt"; shopt -p
-echo "@@var:IFS"; declare -p IFS 2>/dev/null || echo "<unset>"
+echo "@@opts"; builtin set +o
+echo "@@shopt"; builtin shopt -p
+echo "@@var:IFS"; builtin declare -p IFS 2>/dev/null || echo "<unset>"
 IFS=$' \t\n'
-set +a +e +u +f +C; set +o posix; set +o pipefail; shopt -u nullglob failglob nocasematch
+builtin set +a +e +u +f +C; builtin set +o posix; builtin set +o pipefail; builtin shopt -u nullglob failglob nocasematch
 env -0 | {{
-declare -A __vhE=()
+builtin declare -A __vhE
 while IFS= read -r -d '' __vhkv; do __vhE["${{__vhkv%%=*}}"]="${{__vhkv#*=}}"; done
 for __vhn in {vars}; do
   echo "@@var:$__vhn"
-  declare -p "$__vhn" 2>/dev/null || echo "<unset>"
+  builtin declare -p "$__vhn" 2>/dev/null || echo "<unset>"
   if [ -n "${{__vhE[$__vhn]+x}}" ]; then printf 'env:%q\n' "${{__vhE[$__vhn]}}"; else echo "env:<none>"; fi
 done
 }}
-for __vhn in {funcs}; do echo "@@fn:$__vhn"; declare -f "$__vhn" 2>/dev/null || echo "<nofn>"; done
-for __vhn in {aliases}; do echo "@@alias:$__vhn"; alias "$__vhn" 2>/dev/null || echo "<noalias>"; done
+for __vhn in {funcs}; do echo "@@fn:$__vhn"; builtin declare -f "$__vhn" 2>/dev/null || echo "<nofn>"; done
+for __vhn in {aliases}; do echo "@@alias:$__vhn"; builtin alias "$__vhn" 2>/dev/null || echo "<noalias>"; done
 echo "@@pwd"; pwd
 echo "@@dirs"; dirs -l -p
 echo "@@oldpwd"; echo "${{OLDPWD-<unset>}}"
@@ -537,6 +546,7 @@ echo "@@end"
 }
 
 const SEP: &str = "@@@VH-SEP@@@";
+const SNIP: &str = "@@@VH-SNIPPET-END@@@";
 
 type Sections = BTreeMap<String, Vec<u8>>;
 
@@ -544,14 +554,18 @@ type Sections = BTreeMap<String, Vec<u8>>;
 /// entry per option; None if the probe did not run to its end
 fn parse_probe(out: &[u8]) -> Option<Sections> {
     let mut m: Sections = BTreeMap::new();
-    let mut cur: Option<String> = None;
+    // text before the first marker / after the end marker is output the probe did not write:
+    // it gets its own sections, so that anything the carrier itself prints is noticed
+    m.insert("leading".into(), vec![]);
+    m.insert("trailing".into(), vec![]);
+    let mut cur: Option<String> = Some("leading".into());
     let mut ended = false;
     for line in out.split_inclusive(|b| *b == b'\n') {
         if line.starts_with(b"@@") && !line.starts_with(b"@@@") {
             let key = String::from_utf8_lossy(&line[2..]).trim_end().to_string();
             if key == "end" {
                 ended = true;
-                cur = None;
+                cur = Some("trailing".into());
             } else {
                 m.entry(key.clone()).or_default();
                 cur = Some(key);
@@ -659,9 +673,11 @@ fn run_reference_world(env: &Env, h: &History, probe: &str) -> Result<Vec<Sectio
             script.push_str(&s.render());
             script.push('\n');
         }
+        // what the snippet itself printed is not probe output
+        script.push_str(&format!("builtin echo '{SNIP}'\n"));
         script.push_str(probe);
         script.push('\n');
-        script.push_str(&format!("echo '{SEP}'\n"));
+        script.push_str(&format!("builtin echo '{SEP}'\n"));
     }
     let mut environment = test_environment(&dirs, "c12.md", h.utf8);
     // what scrut adds on top of the test's configured environment
@@ -691,7 +707,9 @@ fn run_reference_world(env: &Env, h: &History, probe: &str) -> Result<Vec<Sectio
     let mut probes = vec![];
     let mut rest: &[u8] = &norm;
     while let Some(i) = find_bytes(rest, sep.as_bytes()) {
-        match parse_probe(&rest[..i]) {
+        let snip = format!("{SNIP}\n");
+        let from = find_bytes(&rest[..i], snip.as_bytes()).map(|j| j + snip.len()).unwrap_or(0);
+        match parse_probe(&rest[from..i]) {
             Some(s) => probes.push(s),
             None => return Err(RunError::ReferenceInvalid(format!("reference probe {} incomplete", probes.len()))),
         }
@@ -875,6 +893,8 @@ struct Model {
     /// a function body with extended glob syntax exists: extglob stays on
     extglob_locked: bool,
     posix: bool,
+    /// a user function `declare` exists: `declare` in a snippet would only make function locals
+    declare_shadowed: bool,
     readonly_used: BTreeSet<&'static str>,
     ups: usize,
 }
@@ -1045,6 +1065,13 @@ fn gen_op(rng: &mut Rng, m: &mut Model, risky: &Risky) -> Op {
                 Op::Readonly { name: name.to_string(), val: pick_value(rng) }
             }
         };
+        // through a user function `declare`, these would only create locals of that function and
+        // the element assignments that follow would fail
+        if m.declare_shadowed
+            && matches!(op, Op::Attr { .. } | Op::AssocSet { .. } | Op::AssocElem { .. } | Op::AssocUnsetElem { .. })
+        {
+            continue;
+        }
         return op;
     }
 }
@@ -1056,6 +1083,8 @@ struct Risky {
     allexport: bool,
     posix: bool,
     dashed: bool,
+    shadow_dir: bool,
+    shadow_builtin: bool,
 }
 
 fn gen_history(rng: &mut Rng) -> History {
@@ -1064,6 +1093,8 @@ fn gen_history(rng: &mut Rng) -> History {
         allexport: rng.chance(1, 8),
         posix: rng.chance(1, 6),
         dashed: rng.chance(1, 5),
+        shadow_dir: rng.chance(1, 6),
+        shadow_builtin: rng.chance(1, 8),
     };
     let n_steps = rng.range(2, 8);
     // a history that may contain a risky class does contain it: forced at a random step
@@ -1072,16 +1103,28 @@ fn gen_history(rng: &mut Rng) -> History {
     let force_allexport = slot(rng, risky.allexport, n_steps - 1);
     let force_dashed = slot(rng, risky.dashed, n_steps - 1);
     let force_posix = slot(rng, risky.posix, n_steps);
-    let mut m = Model { extglob_locked: false, posix: false, readonly_used: BTreeSet::new(), ups: 0 };
+    let force_shadow_dir = slot(rng, risky.shadow_dir, n_steps - 1);
+    let force_shadow_builtin = slot(rng, risky.shadow_builtin, n_steps - 1);
+    let mut m = Model { extglob_locked: false, posix: false, declare_shadowed: false, readonly_used: BTreeSet::new(), ups: 0 };
     let mut steps = vec![];
     for si in 0..n_steps {
         let n_ops = rng.range(1, 4);
-        let forced_here = [force_readonly, force_allexport, force_dashed, force_posix].iter().any(|f| *f == Some(si));
+        let forced_here = [force_readonly, force_allexport, force_dashed, force_posix, force_shadow_dir, force_shadow_builtin].iter().any(|f| *f == Some(si));
         let detached = !forced_here && rng.chance(1, 12);
         let mut ops = vec![];
         let posix_before = m.posix;
         for _ in 0..n_ops {
             ops.push(gen_op(rng, &mut m, &risky));
+        }
+        if force_shadow_dir == Some(si) && !m.posix {
+            ops.push(Op::Shadow { name: rng.pick(SHADOW_DIR).to_string() });
+        }
+        if force_shadow_builtin == Some(si) && !m.posix {
+            let name = *rng.pick(SHADOW_BUILTIN);
+            if name == "declare" {
+                m.declare_shadowed = true;
+            }
+            ops.push(Op::Shadow { name: name.to_string() });
         }
         if force_dashed == Some(si) && !m.posix {
             let name = *rng.pick(&["my-func", "g.h"]);
@@ -1154,6 +1197,8 @@ impl Monitor for C12 {
             ("probed:var.array".into(), f(70, 1050)),
             ("probed:var.assoc".into(), f(70, 1050)),
             ("probed:fn".into(), f(80, 1200)),
+            ("probed:fn.shadow-dir".into(), f(15, 225)),
+            ("probed:fn.shadow-builtin".into(), f(6, 90)),
             ("probed:fn.dashed".into(), f(15, 225)),
             ("probed:alias".into(), f(70, 1050)),
             ("probed:opt".into(), f(70, 1050)),
